@@ -1,9 +1,15 @@
 package main
 
-// Other campaigns (filled in as they are built).
+// Campaign modes other than the operation-history one.
+
+import (
+	"fmt"
+	"sort"
+)
 
 func runMode(mode, prop, tier string, seed uint64, scratch, replays string) *Output {
-	if mode == "one" {
+	switch mode {
+	case "one":
 		spec := propSpecs[prop]
 		c, vs, _ := runHistory(scratch, seed, spec, "")
 		for _, v := range vs {
@@ -13,8 +19,118 @@ func runMode(mode, prop, tier string, seed uint64, scratch, replays string) *Out
 			println("oraclesOn:", v.Key, v.What, v.Op)
 		}
 		return &Output{Property: prop}
+	case "integ":
+		return decideInteg(prop, tier, seed, scratch, replays)
 	}
 	return &Output{Property: prop, Tier: tier, Seed: seed, Violations: 1, Messages: []string{"unknown mode " + mode}}
 }
 
-func replayMode(rf *ReplayFile, scratch string) int { return 2 }
+// decideInteg turns an integrity campaign's result into a verdict.
+func decideInteg(prop, tier string, seed uint64, scratch, replays string) *Output {
+	res := integCampaign(prop, tier, seed, scratch)
+	o := &Output{Property: prop, Tier: tier, Seed: seed, Campaign: "signed-image scenarios: " + integCorr[prop],
+		Evaluations: res.OpsRun, Distinct: res.Distinct, Traces: res.Cases, LinesCmp: res.Lines,
+		Rule:         "scenarios drawn from the property's generator (base image x signing configuration x edit/tamper/trust variant), every random choice from the per-case SplitMix64 sub-seed; distinct = distinct protocol text; every scenario signs with real keys and verifies, so all are non-trivial",
+		Samples:      res.Samples, Distribution: res.Stats, WallS: res.WallS}
+	if len(o.Samples) == 0 {
+		o.Samples = []string{"(none)"}
+	}
+	known := loadKnown()
+	seenKnown, seenKey := map[string]bool{}, map[string]bool{}
+	if res.DriverErr != "" {
+		rf := &ReplayFile{Property: prop, Kind: "correspondence", Key: prop + ":driver-error", What: res.DriverErr, Broken: integCorr[prop], Seed: seed}
+		p := writeReplay(replays, rf, "driver")
+		o.Violations++
+		o.Messages = append(o.Messages, fmt.Sprintf("VIOLATION property=%s replay=%s no-failing-input-found", prop, p))
+		return o
+	}
+	sort.Slice(res.Findings, func(a, b int) bool { return len(res.Findings[a].Ops) < len(res.Findings[b].Ops) })
+	for _, f := range res.Findings {
+		if f.Known {
+			if !seenKnown[f.V.Key] {
+				seenKnown[f.V.Key] = true
+				o.Known = append(o.Known, f.V.Key)
+				o.Messages = append(o.Messages, fmt.Sprintf("KNOWN-FINDING: property=%s %s (%s)", prop, f.V.Key, known[f.V.Key]))
+			}
+			continue
+		}
+		if seenKey[f.V.Key] {
+			continue
+		}
+		seenKey[f.V.Key] = true
+		c, _, _ := runInteg(prop, scratch, f.Seed)
+		rf := &ReplayFile{Property: prop, Kind: "oracle", Key: f.V.Key, What: f.V.What, Seed: f.Seed, Ops: c.Ops, Proto: c.Proto, Impl: c.Impl, Found: true}
+		p := writeReplay(replays, rf, "oracle")
+		o.Violations++
+		o.Messages = append(o.Messages, fmt.Sprintf("VIOLATION property=%s replay=%s", prop, p))
+	}
+	if len(res.Breaks) > 0 && o.Violations == 0 {
+		b := res.Breaks[0]
+		c, _, _ := runInteg(prop, scratch, b.Seed)
+		model, _ := runDriver(c.Proto)
+		what := fmt.Sprintf("implementation and model disagree (%d scenarios); first: kind=%s fields=%v impl=%q model=%q", len(res.Breaks), b.M.Kind, b.Fields, b.M.Impl, b.M.Model)
+		// focused search: more scenarios from derived seeds, oracle only
+		var found *Finding
+		searched := 0
+		for i := 0; i < integCases[prop][0]*3 && found == nil; i++ {
+			cs := b.Seed ^ (uint64(i+1) * 0x9e3779b97f4a7c15)
+			cc, vs, _ := runInteg(prop, scratch, cs)
+			searched++
+			for _, v := range vs {
+				if _, k := known[v.Key]; !k {
+					found = &Finding{V: *v, Seed: cs, Ops: cc.Ops}
+					break
+				}
+			}
+		}
+		rf := &ReplayFile{Property: prop, Kind: "correspondence", Key: prop + ":correspondence", What: what,
+			Broken: integCorr[prop] + "; theorems of Props/" + prop + ".lean rest on this model", Seed: b.Seed, Ops: c.Ops, Proto: c.Proto, Impl: c.Impl, Model: model, Searched: searched}
+		if found != nil {
+			cc, _, _ := runInteg(prop, scratch, found.Seed)
+			rf.Found, rf.Kind, rf.Key, rf.What, rf.Seed = true, "oracle", found.V.Key, found.V.What+" [found after: "+what+"]", found.Seed
+			rf.Ops, rf.Proto, rf.Impl, rf.Model = cc.Ops, cc.Proto, cc.Impl, nil
+			p := writeReplay(replays, rf, "oracle")
+			o.Messages = append(o.Messages, fmt.Sprintf("VIOLATION property=%s replay=%s", prop, p))
+		} else {
+			p := writeReplay(replays, rf, "corr")
+			o.Messages = append(o.Messages, fmt.Sprintf("VIOLATION property=%s replay=%s no-failing-input-found", prop, p))
+		}
+		o.Violations++
+	}
+	sort.Strings(o.Known)
+	return o
+}
+
+// replayMode re-executes a replay file of a non-history campaign from its seed.
+func replayMode(rf *ReplayFile, scratch string) int {
+	if _, ok := integScen[rf.Property]; ok {
+		c, vs, _ := runInteg(rf.Property, scratch, rf.Seed)
+		for _, op := range c.Ops {
+			s := op.Short()
+			if len(s) > 400 {
+				s = s[:400] + "…"
+			}
+			fmt.Println("  ", s)
+		}
+		bad := 0
+		for _, v := range vs {
+			fmt.Printf("oracle: %s: %s (op %d)\n", v.Key, v.What, v.Op)
+			bad++
+		}
+		model, err := runDriver(c.Proto)
+		if err != nil {
+			fmt.Println("driver:", err)
+			bad++
+		} else if m := compareInteg(c, model); m != nil {
+			fmt.Printf("correspondence: op %d\n  impl : %s\n  model: %s\n", m.Op, m.Impl, m.Model)
+			bad++
+		}
+		if bad > 0 {
+			fmt.Printf("VIOLATION property=%s replay=(seed %d)\n", rf.Property, rf.Seed)
+			return 1
+		}
+		fmt.Println("replay no longer fails")
+		return 0
+	}
+	return 2
+}
